@@ -114,6 +114,7 @@ var c01Variants = []c01Variant{
 	{[]string{"--ojsonl"}, []string{"--ijsonl"}, false, nil, false},
 	{[]string{"--oxtab"}, []string{"--ixtab"}, false, []string{"a", "b", "c1", "xy", "1", "2.5", "é"}, true},
 	{[]string{"--oxtab", "--ops", ": "}, []string{"--ixtab", "--ips", ": "}, false, []string{"a", "b", "c1", "xy", "1", "2.5", "é", ":1", "::1", ":-)", "x:y", ":"}, true},
+	{[]string{"--oxtab", "--ops", "→"}, []string{"--ixtab", "--ips", "→"}, false, []string{"a", "b", "c1", "xy", "1", "2.5", "é", "1é", "éé"}, true},
 	{[]string{"--opprint"}, []string{"--ipprint"}, false, []string{"a", "b", "c1", "xy", "1", "2.5", "é", "-", ""}, true},
 	{[]string{"--opprint", "--barred"}, []string{"--ipprint", "--barred-input"}, false, []string{"a", "b", "c1", "xy", "1", "2.5", "é", ""}, true},
 	{[]string{"--opprint", "--right"}, []string{"--ipprint"}, false, []string{"a", "b", "c1", "xy", "1", "2.5", "é", ""}, true},
